@@ -666,7 +666,8 @@ def run_legacy(case):
         z = dns.zone.from_xfr(gen, relativize=bool(rel))
     except Exception as e:  # noqa
         return exc_code(e)
-    return dump_zone(z, rel)
+    # owner names + 10: the zone built by from_xfr also holds the out-of-zone (negative) names
+    return [[e[0] + 10] + e[1:] for e in dump_zone(z, rel)]
 
 
 class SigningTCP:
@@ -1762,12 +1763,18 @@ def top_query_cases(ctx, rng, n):
 
 
 def legacy_cases(ctx, rng, n):
-    """valid AXFR responses through dns.query.xfr + dns.zone.from_xfr (oracle only)"""
+    """valid AXFR responses (some with out-of-zone glue, which from_xfr keeps) through dns.query.xfr +
+    dns.zone.from_xfr; model: legacy_axfr"""
     for _ in range(n):
         z = gen_zone(rng, rng.randrange(T32))
-        recs = axfr_stream(rng, z, shuffle=rng.random() < 0.6)
+        recs = axfr_stream(rng, z, shuffle=rng.random() < 0.6, glue=rng.random() < 0.35)
         msgs = msgs_of(split(recs, rand_cuts(rng, len(recs))), AXFR, rng.choice([0, 1, 2]))
-        yield "legacy-xfr", [9, rng.randrange(2), msgs, zdump(z)]
+        exp = copyz(z)
+        for r in recs:
+            if r[0] < 0:
+                k = (r[0], r[2], r[3])
+                exp[k] = (min(exp[k][0], r[4]), exp[k][1] | {r[5]}) if k in exp else (r[4], {r[5]})
+        yield "legacy-xfr", [9, rng.randrange(2), msgs, [[e[0] + 10] + e[1:] for e in zdump(exp)]]
 
 
 def tsig_cases(ctx, rng, n):
@@ -1806,7 +1813,7 @@ def tsig_cases(ctx, rng, n):
 
 
 def in_model(kind, case):
-    return case[0] != 9
+    return True
 
 
 def misc_cases(ctx, rng):
@@ -1826,6 +1833,15 @@ def misc_cases(ctx, rng):
     for qt in [AXFR, IXFR, SOA, A]:
         for au in [None, 0, 7, 2 ** 32 - 1]:
             yield "extract", [10, qt, au]
+    # Inbound.__init__: IXFR needs a serial, AXFR cannot be done over UDP, nothing else is a transfer
+    z1 = gen_zone(rng, 5, size=2)
+    z2 = mutate(rng, z1, 6, nops=2)
+    for zk in range(3):
+        for rdt, ser, udp in [(AXFR, None, 1), (AXFR, 5, 1), (IXFR, None, 0), (IXFR, None, 1), (A, None, 0), (SOA, 5, 0),
+                              (AXFR, None, 0), (AXFR, 5, 0), (IXFR, 5, 0), (IXFR, 5, 1)]:
+            recs = ixfr_stream(rng, [z1, z2]) if rdt == IXFR else axfr_stream(rng, z2)
+            msgs = [[0, [], [[x[0], x[1], x[2], x[3], x[4], [x[5]]] for x in recs]]]
+            yield "init", [2, zk, rng.randrange(2), rdt, ser, udp, zdump(z1), msgs, [ANY, None]]
     for zs in [None, 1, 77, 2 ** 32 - 1, 5]:
         for ser in [None, 0, 1, 5, 2 ** 32 - 1, 2 ** 32, -1, 2 ** 33]:
             yield "make_query", [3, zs, ser]
